@@ -226,8 +226,37 @@ pub fn run_calls(fsts: &[&[u8]], l: usize) -> Result<(u64, [i64; 2]), String> {
             let _ = std::fmt::Write::write_fmt(&mut w, format_args!("{:?}", ma));
             w.0
         })?;
+        // traversals abandoned half way: nothing stays live, the peak is bounded
+        measure("stream() dropped after 1000 items", 0, bound, &mut || {
+            let mut s = a.stream();
+            let mut c = 0u64;
+            while c < 1000 && s.next().is_some() {
+                c += 1;
+            }
+            c
+        })?;
+        measure("union dropped after 1000 items", 0, bound, &mut || {
+            let mut u = raw::OpBuilder::new().add(&a).add(&b).union();
+            let mut c = 0u64;
+            while c < 1000 && u.next().is_some() {
+                c += 1;
+            }
+            c
+        })?;
+        measure("two streams advanced alternately", 0, bound, &mut || {
+            let (mut s1, mut s2) = (a.stream(), a.range().ge(b"0").into_stream());
+            let mut c = 0u64;
+            loop {
+                let x = s1.next().is_some();
+                let y = s2.next().is_some();
+                c += 1;
+                if !x && !y {
+                    break c;
+                }
+            }
+        })?;
         std::hint::black_box(acc);
-        Ok((10, peaks))
+        Ok((13, peaks))
     })
     .and_then(|x| x)
 }
@@ -327,7 +356,7 @@ pub fn replay(case: &Value) -> Result<String, String> {
 pub fn plan(tier: Tier) -> Plan {
     let mut p = Plan::new("C14", "exploration");
     let thorough = tier.thorough();
-    p.rule = "counting allocator, per-thread. (1) exhaustive in small scopes: for every FST of all subsets of U_ab3 and U_raw2 (values 3i+1), of the fan-out families and of the 256-byte label family: (a) Fst::new/Map::new/Set::new over borrowed bytes and every get/contains_key/contains of the probe closure perform ZERO allocations (allocation count); (b) stream(), every range (all kind pairs x bound keys of length <= 2; large sets <= 1) and three automaton searches: live heap after EVERY next() <= heap before construction + 4096 + 256*(L+2) + 4*(L+16); (c) union/intersection/difference/symmetric_difference over k = 2..4 FST-backed streams (the FST, its even- and odd-indexed halves, itself): live heap after every next() <= before + 256 + k*(stream bound + 2*max(L,64) + 512). (2) finite ladder (not exhaustive): FSTs of N = 1e4, 1e5 (thorough 1e6) 8-byte keys: full stream/range/search, k = 2..8 way operations over partially overlapping FSTs, and operations over 2-4 identical and over disjoint FSTs (long runs in which nothing is emitted): max extra heap identical (+-256 B) for all N; the same on a wide-node ladder (3-byte keys: root of up to 256 transitions, N/40 distinct non-root nodes of 64 and 40 transitions; N = 10240, 102400, 655360 - the last one a dense root in a file > 64 KiB), with zero-allocation open/lookups on each; on both ladders also is_subset / is_superset / is_disjoint (raw and Set, also against a range stream) and the Debug formatting of Set and Map into a non-allocating sink: peak extra heap bounded and identical for all N, nothing live afterwards. non-trivial = traversals yielding >= 2 items".into();
+    p.rule = "counting allocator, per-thread. (1) exhaustive in small scopes: for every FST of all subsets of U_ab3 and U_raw2 (values 3i+1), of the fan-out families and of the 256-byte label family: (a) Fst::new/Map::new/Set::new over borrowed bytes and every get/contains_key/contains of the probe closure perform ZERO allocations (allocation count); (b) stream(), every range (all kind pairs x bound keys of length <= 2; large sets <= 1) and three automaton searches: live heap after EVERY next() <= heap before construction + 4096 + 256*(L+2) + 4*(L+16); (c) union/intersection/difference/symmetric_difference over k = 2..4 FST-backed streams (the FST, its even- and odd-indexed halves, itself): live heap after every next() <= before + 256 + k*(stream bound + 2*max(L,64) + 512). (2) finite ladder (not exhaustive): FSTs of N = 1e4, 1e5 (thorough 1e6) 8-byte keys: full stream/range/search, k = 2..8 way operations over partially overlapping FSTs, and operations over 2-4 identical and over disjoint FSTs (long runs in which nothing is emitted): max extra heap identical (+-256 B) for all N; the same on a wide-node ladder (3-byte keys: root of up to 256 transitions, N/40 distinct non-root nodes of 64 and 40 transitions; N = 10240, 102400, 655360 - the last one a dense root in a file > 64 KiB), with zero-allocation open/lookups on each; on both ladders also is_subset / is_superset / is_disjoint (raw and Set, also against a range stream) and the Debug formatting of Set and Map into a non-allocating sink, traversals abandoned after 1000 items and two streams of one FST advanced alternately: peak extra heap bounded and identical for all N, nothing live afterwards. non-trivial = traversals yielding >= 2 items".into();
     p.assumptions = vec![
         "'for all N' beyond the ladder is not decided; transient per-item allocations that are freed again do not violate the property as stated".into(),
         "memory of user-supplied streams is outside the property".into(),
